@@ -323,3 +323,55 @@ def rejections(c):
     cl = c.call(Spheres, [good], warn=False)
     c.ensures("add-non-sphere-rejected", c.outcome(cl.add, ell).raised(InvalidScatterer))
     c.ensures("add-sphere-accepted", c.outcome(cl.add, good).ok)
+
+
+_WARN_CHILD = r'''
+import sys, json, warnings
+spec = json.loads(sys.argv[1])
+from holopy.scattering.scatterer import Sphere, Spheres
+from holopy.scattering.errors import OverlapWarning
+seen = []
+warnings.showwarning = lambda msg, cat, *a, **k: seen.append(cat.__name__)
+made = 0
+for radii, centres, warn in spec:          # one source location for every construction, as in a fitting loop
+    cl = Spheres([Sphere(n=1.5, r=r, center=tuple(x)) for r, x in zip(radii, centres)], warn=warn)
+    made += 1
+print(json.dumps({"made": made, "overlap_warnings": seen.count("OverlapWarning"), "other": [s for s in seen if s != "OverlapWarning"]}))
+'''
+
+
+@contract("C20", "warning_every_construction", [S + "spherecluster:Spheres.__init__", "holopy.scattering.errors:OverlapWarning"], native_only=True,
+          bounded="native sampling in a fresh interpreter with Python's default warning filters: 1-5 clusters of 2-3 spheres built from one source "
+                  "line out of two distinct geometries (so identical clusters recur), overlapping or separate, warn on or off")
+def warning_every_construction(c):
+    """with the interpreter's own (default) warning filters, every construction of an overlapping cluster with warn set issues an
+    OverlapWarning - not only the first one from a given source line - and no other construction does"""
+    import subprocess, sys, os, json
+    rng = np.random.RandomState(c.int("seed", 0, 10 ** 6))
+    k = c.int("constructions", 1, 5)
+    pool = []
+    for _ in range(2):                                             # two distinct clusters; a loop rebuilds the very same ones
+        m = int(rng.randint(2, 4))
+        radii = [float(x) for x in rng.uniform(0.3, 1.0, size=m)]
+        if rng.rand() < 0.75:                                      # overlapping: second sphere inside the reach of the first
+            centres = [[0., 0., 0.], [0., 0., 0.8 * (radii[0] + radii[1])]] + [[10. * (i + 1), 0., 0.] for i in range(m - 2)]
+            over = True
+        else:
+            centres = [[10. * i, 0., 0.] for i in range(m)]
+            over = False
+        pool.append((radii, centres, over))
+    spec, expect = [], 0
+    for _ in range(k):
+        radii, centres, over = pool[int(rng.rand() < 0.3)]
+        warn = bool(rng.rand() < 0.85)
+        spec.append([radii, centres, warn])
+        expect += int(over and warn)
+    env = {k_: v for k_, v in os.environ.items() if k_ != 'PYTHONWARNINGS'}
+    env['PYTHONPATH'] = os.pathsep.join(p for p in sys.path if p)
+    p = subprocess.run([sys.executable, '-c', _WARN_CHILD, json.dumps(spec)], env=env, capture_output=True, text=True, timeout=300)
+    c.ensures("child-ran", p.returncode == 0, detail=p.stderr[-300:])
+    if p.returncode == 0:
+        got = json.loads(p.stdout.strip().splitlines()[-1])
+        c.ensures("one-warning-per-overlapping-construction", got["overlap_warnings"] == expect,
+                  detail="%d clusters built from one source line, %d of them overlapping with warn set: %d OverlapWarning(s) reached "
+                         "warnings.showwarning under the default filters" % (k, expect, got["overlap_warnings"]))
